@@ -139,6 +139,28 @@ fn run_selection(seq: &[(usize, bool)], trace: bool) -> CaseResult {
         let last = seq.last().map(|(k, e)| format!("{:?}={}", ks[*k], e)).unwrap_or_default();
         res.viols.push(viol(format!("C18|selection|{kind}|last-call {}", last.split('(').next().unwrap_or("")), ctx(&w)));
     }
+    // a service with automatic addressing registered now is probed and announced on exactly the
+    // enabled interfaces and families (the selections in force, in call order, last match winning)
+    let from_reg = w.log.len();
+    w.ds[0].h.register(svc("_a._udp.local.", "auto", "autohost.local.", "", 88, &[]).enable_addr_auto()).unwrap();
+    w.poke(0);
+    w.advance(900);
+    let auto_name = n("auto._a._udp.local");
+    let mut got_reg: BTreeSet<(u32, bool)> = BTreeSet::new();
+    for e in &w.log[from_reg..] {
+        if let crate::sim::Kind::Out(o) = &e.kind {
+            if let (Some(ix), Ok(m)) = (o.if_index, &o.msg) {
+                if m.questions.iter().any(|q| name_eq_ci(&q.name, &auto_name)) || m.all_records().any(|r| name_eq_ci(&r.name, &auto_name)) {
+                    got_reg.insert((ix, o.v4()));
+                }
+            }
+        }
+    }
+    if got_reg != want {
+        let leak: Vec<_> = got_reg.difference(&want).collect();
+        let kind = if !leak.is_empty() { "on-a-disabled-interface" } else { "enabled-interface-left-out" };
+        res.viols.push(viol(format!("C18|selection|addr-auto-registration-{kind}"), format!("probes / announcements of the service left on {got_reg:?}, reference enables {want:?}; selections {:?}", seq.iter().map(|(k, e)| (format!("{:?}", ks[*k]), *e)).collect::<Vec<_>>())));
+    }
     // an interface that shows up later obeys the same selections
     table.extend(late_intf());
     w.ds[0].ctl.set_intfs(table.clone());
